@@ -380,6 +380,27 @@ def rejections(ctx):
               not bool(df.Region(p1=p1.tolist(), p2=p2.tolist()) in region),
               note="box sticking out reported as contained", spec=spec.describe())
     ctx.check("C01.region.contains", bool(region in region), note="region not in itself")
+    # a region with a generous comparison tolerance (the library's own tests use 0.1): points
+    # up to that tolerance outside - possibly more than a cell - are points of the region and
+    # map to the outermost cell on that side
+    tf = float(gen.pick(rng, [1e-3, 0.02, 0.1]))
+    wide = df.Mesh(region=spec.region(tolerance_factor=tf), n=[int(k) for k in n])
+    reach = tf * float(np.min(spec.edges))
+    for _ in range(4):
+        ax = int(rng.integers(0, nd))
+        p = spec.pmin + rng.uniform(0.05, 0.95, nd) * spec.edges
+        up = bool(rng.random() < 0.5)
+        d = rng.uniform(0.05, 0.9) * reach
+        p[ax] = spec.pmax[ax] + d if up else spec.pmin[ax] - d
+        what = {"p": p, "axis": ax, "outside_by_cells": d / spec.cell[ax], "tolerance_factor": tf,
+                "spec": spec.describe()}
+        okc, got = ctx.expect_ok("C01.point2index.accepts_within_tolerance", wide.point2index, p,
+                                 what=what)
+        if okc:
+            got = np.asarray(got)
+            ctx.check("C01.point2index.face",
+                      bool(np.all((got >= 0) & (got < n))) and got[ax] == (n[ax] - 1 if up else 0),
+                      got=got, up=up, **what)
 
 
 def run_case(ctx, i):
